@@ -39,7 +39,7 @@ ASSUMPTIONS = [
     'row dicts always name the last column (shape is inferred from keys)',
 ]
 ANCHORS = ['Table._to_sparse', 'coo_arrays_to_sparse', 'list_list_to_sparse', 'nparray_to_sparse', 'list_nparray_to_sparse', 'list_sparse_to_sparse', 'list_dict_to_sparse', 'dict_to_sparse', 'Table.from_adjacency', 'parse_uc', '_from_uc', 'errcheck']
-REQUIRED = ['malformed_flat_vector', 'form_rows_of_mixed_layout', 'uc_hits_on_seed_reads', 'form_rows_of_mixed_dtype', 'adjacency_ids_starting_with_hash', 'families', 'forms_compared', 'form_dict_unordered',
+REQUIRED = ['adjacency_first_record_named_like_the_header', 'malformed_flat_vector', 'form_rows_of_mixed_layout', 'uc_hits_on_seed_reads', 'form_rows_of_mixed_dtype', 'adjacency_ids_starting_with_hash', 'families', 'forms_compared', 'form_dict_unordered',
             'form_triples_with_zeros', 'form_bool', 'form_int',
             'adjacency_cases', 'uc_cases', 'uc_cli_cases',
             'malformed_duplicate_id', 'malformed_id_count',
@@ -400,6 +400,17 @@ def run_adjacency(ctx, r, index):
         recs = [(ren.get(o, o), s, v) for o, s, v in recs]
         header = True
         ctx.count('adjacency_ids_starting_with_hash')
+    if not header and r.random() < .12:
+        # no header, and the first record names an observation (and perhaps
+        # a sample) like the header's column titles: with a number in the
+        # third column it is a record
+        o0, s0 = recs[0][0], recs[0][1]
+        ren_s = 'SampleID' if r.random() < .5 else s0
+        if '#OTU ID' not in {o for o, _, _ in recs} and \
+                (ren_s == s0 or ren_s not in {x for _, x, _ in recs}):
+            recs = [('#OTU ID' if o == o0 else o,
+                     ren_s if x == s0 else x, v) for o, x, v in recs]
+            ctx.count('adjacency_first_record_named_like_the_header')
     lines = ['%s\t%s\t%r' % (o, s, float(v)) for o, s, v in recs]
     if header:
         lines = ['#OTU ID\tSampleID\tvalue'] + lines
